@@ -138,6 +138,13 @@ def r3_mean_std(ctx):
                 okk = div and all(vkey(e.data["args"][-1]) == "self.nodes.sizes['d']" for e in div)
                 sums = [e for e in p.effects if is_call(e, qual=f"{F}.Action.sum")]
                 okk = okk and sums and all(e.data["kwargs"].get("batch_size") == 2 and e.data["kwargs"].get("dim") == "d" for e in sums)
+                if name == "std":
+                    # each of the two moments is either a batched sum over the dimension divided by its size, or a nested batched mean (decided by the rule for mean)
+                    means = [e for e in p.effects if is_call(e, qual=f"{F}.Action.mean") and e.func == fi.qual]
+                    own_sums = [e for e in sums if e.func == fi.qual]
+                    own_div = [e for e in div if e.func == fi.qual]
+                    okk = all(e.data["kwargs"].get("batch_size") == 2 and e.data["kwargs"].get("dim") == "d" for e in means + own_sums) \
+                        and all(vkey(e.data["args"][-1]) == "self.nodes.sizes['d']" for e in own_div) and len(own_sums) == len(own_div) and len(own_sums) + len(means) == 2
                 if not okk:
                     ctx.violation("C13.R3", fi.qual, loc(fi), f"batched {name}",
                                   f"the batched {name} must be built from batched sums over 'd' divided by the size of the reduced dimension: "
